@@ -1,6 +1,6 @@
 ---------------------------- MODULE ScopeTrace ----------------------------
 (* Trace validation for scope guards.  Whether a guard is active is not observable, so the validator        *)
-(* carries the model state `ms` along each script ({"op":"reset","names":[..],"nf":n} starts one) and        *)
+(* carries the model state `ms` along each script ({"op":"reset"}, {"op":"begin","names":[..]} start one) and        *)
 (* compares what IS observable of every call: the sequence of exit functions invoked, the number of live     *)
 (* exit-function objects per id, and the copy / move constructions of exit-function objects.                 *)
 (* After the first deviation of a script the rest of that script is passed over.                            *)
@@ -32,8 +32,11 @@ Init == l = 1 /\ nbad = 0 /\ dirty = FALSE /\ ms = [g |-> [n \in {} |-> Dead]]
 Next ==
     /\ l <= Len(Tr)
     /\ l' = l + 1
-    /\ IF Tr[l].op = "reset" THEN nbad' = nbad /\ dirty' = FALSE /\ ms' = St0(Tr[l])
+    /\ IF Tr[l].op = "reset" THEN nbad' = nbad /\ dirty' = FALSE /\ ms' = ms          \* script boundary marker
+       ELSE IF Tr[l].op = "begin" THEN nbad' = nbad /\ dirty' = FALSE /\ ms' = St0(Tr[l])  \* names of the guard slots
        ELSE IF dirty THEN UNCHANGED <<nbad, dirty, ms>>
+       \* the process died inside a call of this script (tools/vlib.py turns the death into a trap event)
+       ELSE IF Tr[l].op = "trap" THEN nbad' = nbad + 1 /\ dirty' = TRUE /\ ms' = ms /\ PrintT(<<"DEV", l, "crash", "-">>)
        ELSE LET vs == Judge(Tr[l], ms) IN
             /\ nbad' = nbad + Len(vs)
             /\ dirty' = (Len(vs) > 0)
